@@ -163,13 +163,48 @@ def run_driver(lines, timeout=3000):
     return out
 
 
+class Hang(BaseException):
+    """raised by the interval timer inside an implementation call that overran its time limit (BaseException: not swallowed by the
+    library's own `except Exception` clauses)"""
+
+
+class time_limit:
+    """promptness watchdog for in-process implementation calls: SIGALRM after `sec` seconds raises Hang in the running call
+    (CPython's regular-expression engine and every pure-Python loop poll for signals)"""
+
+    def __init__(self, sec):
+        self.sec = sec
+
+    def _fire(self, signum, frame):
+        raise Hang()
+
+    def __enter__(self):
+        import signal, threading
+        self.on = threading.current_thread() is threading.main_thread()
+        if self.on:
+            self.old = signal.signal(signal.SIGALRM, self._fire)
+            signal.setitimer(signal.ITIMER_REAL, self.sec)
+        return self
+
+    def __exit__(self, *a):
+        import signal
+        if self.on:
+            signal.setitimer(signal.ITIMER_REAL, 0)
+            signal.signal(signal.SIGALRM, self.old)
+        return False
+
+
+CALL_TIME_LIMIT = float(os.environ.get("VERIF_CALL_TIME_LIMIT", "60"))
+
+
 def run_impl(mod, case):
     from harness.canon import exc_kind
     fn = mod.IMPL.get(case.op)
     if fn is None:
         raise HarnessError("no implementation adapter for op " + case.op)
     try:
-        r = fn(*case.args)
+        with time_limit(CALL_TIME_LIMIT):
+            r = fn(*case.args)
         if isinstance(r, str) and r.startswith("\x00"):
             return r[1:]            # adapter supplies the complete reply (e.g. a recorded history observation)
         return "ok" if r is None or r == "" else "ok " + r
@@ -177,6 +212,8 @@ def run_impl(mod, case):
         raise
     except RecursionError:
         return "err Other:RecursionError"
+    except Hang:
+        return "err Hang:no-answer-within-%ds" % CALL_TIME_LIMIT
     except Exception as ex:  # noqa
         return "err " + exc_kind(ex)
 
